@@ -25,9 +25,11 @@ CONSTANTS Pool,         \* abstract objects offered to Put (model checking); unu
 VARIABLES file,     \* [exists, magic, kind, recs : [key -> wire tuple]]
           hs,       \* [{"w","r"} -> [made, codec]]
           written,  \* history: key -> the abstract object that was put
+          cache,    \* [{"w","r"} -> [key -> object]]: decoded objects a library object keeps and hands out again
+                    \* (empty in the required behaviour: every read decodes the stored record afresh)
           last      \* observation (excluded from fingerprints by VIEW)
-vars == <<file, hs, written, last>>
-sv   == <<file, hs, written>>
+vars == <<file, hs, written, cache, last>>
+sv   == <<file, hs, written, cache>>
 Dev(d) == d \in Deviations
 (* TLC evaluates a quantifier that is a conjunct of an ACTION by recursion over its range (it might contain primes); *)
 (* wrapped in an equation the predicate is evaluated as a state function, iteratively, whatever the size of the object *)
@@ -153,6 +155,7 @@ Decode(v, kind, w) ==
 Init == /\ file = [exists |-> FALSE, magic |-> "none", kind |-> "none", recs |-> NoRecs]
         /\ hs = [h \in {"w", "r"} |-> [made |-> FALSE, codec |-> 0]]
         /\ written = NoRecs
+        /\ cache = [h \in {"w", "r"} |-> NoRecs]
         /\ last = [act |-> "init", out |-> "ok"]
 Note(a, o) == last' = a @@ [out |-> o]
 
@@ -160,7 +163,7 @@ Note(a, o) == last' = a @@ [out |-> o]
 MakeLegacy(kind) ==
   /\ ~file.exists
   /\ file' = [exists |-> TRUE, magic |-> "ML10Library", kind |-> kind, recs |-> NoRecs]
-  /\ UNCHANGED <<hs, written>> /\ Note([act |-> "legacy", kind |-> kind], "ok")
+  /\ UNCHANGED <<hs, written, cache>> /\ Note([act |-> "legacy", kind |-> kind], "ok")
 
 (* ... and holds records that a previous molli wrote with the legacy schema *)
 LegacyPut(k, x) ==
@@ -168,7 +171,7 @@ LegacyPut(k, x) ==
   /\ k \notin DOMAIN file.recs /\ x.kind = file.kind /\ Holds(InDom(1, x))
   /\ file' = [file EXCEPT !.recs = With(@, k, Encode(1, x))]
   /\ written' = With(written, k, x)
-  /\ UNCHANGED hs /\ Note([act |-> "lput", k |-> k, x |-> x], "ok")
+  /\ UNCHANGED <<hs, cache>> /\ Note([act |-> "lput", k |-> k, x |-> x], "ok")
 
 (* MoleculeLibrary(path, readonly = (h = "r")) / ConformerLibrary(...): sniffs the magic, picks the codec *)
 CodecFor(h, magic) == IF magic = "ML10Library" /\ ~Dev("MagicIgnored") /\ ~(Dev("MagicIgnoredByReader") /\ h = "r") THEN 1 ELSE 2
@@ -180,7 +183,7 @@ OpenLib(h, kind) ==
        THEN UNCHANGED sv /\ Note(a, "FileNotFoundError")
        ELSE /\ file' = IF file.exists THEN file ELSE [exists |-> TRUE, magic |-> "ML10UKV01", kind |-> kind, recs |-> NoRecs]
             /\ hs' = [hs EXCEPT ![h] = [made |-> TRUE, codec |-> CodecFor(h, file'.magic)]]
-            /\ UNCHANGED written /\ Note(a, "ok")
+            /\ UNCHANGED <<written, cache>> /\ Note(a, "ok")
 
 (* lib[k] = x inside writing() *)
 Put(k, x) ==
@@ -191,23 +194,40 @@ Put(k, x) ==
   /\ IF ~Packable(x) THEN UNCHANGED sv /\ Note(a, "OverflowError")
      ELSE /\ file' = [file EXCEPT !.recs = With(@, k, Encode(v, x))]
           /\ written' = With(written, k, x)
-          /\ UNCHANGED hs /\ Note(a, "ok")
+          /\ UNCHANGED <<hs, cache>> /\ Note(a, "ok")
 
-(* lib[k] inside writing() (h = "w") or through the second object inside reading() (h = "r") *)
+(* lib[k] inside writing() (h = "w") or through the second object inside reading() (h = "r").              *)
+(* Required: every read decodes the stored record; what the caller does with the object it was handed is     *)
+(* the caller's business.  Deviation "AliasedReadCache": the library object keeps the decoded object and     *)
+(* hands the SAME object out again while the stored bytes are unchanged.                                     *)
 Get(h, k) ==
   LET v == hs[h].codec
       a == [act |-> "get", h |-> h, k |-> k, ver |-> v] IN
   /\ hs[h].made /\ k \in DOMAIN file.recs
-  /\ UNCHANGED sv
-  /\ IF Unpackable(v, written[k]) THEN Note(a, "ValueError")
-     ELSE LET r == Decode(v, file.kind, file.recs[k]) IN
-          IF r.ok THEN last' = a @@ [out |-> "ok", val |-> r.x] ELSE Note(a, "ValueError")
+  /\ UNCHANGED <<file, hs, written>>
+  /\ IF Dev("AliasedReadCache") /\ k \in DOMAIN cache[h]
+       THEN UNCHANGED cache /\ last' = a @@ [out |-> "ok", val |-> cache[h][k]]
+       ELSE IF Unpackable(v, written[k]) THEN UNCHANGED cache /\ Note(a, "ValueError")
+       ELSE LET r == Decode(v, file.kind, file.recs[k]) IN
+            IF r.ok THEN /\ last' = a @@ [out |-> "ok", val |-> r.x]
+                         /\ cache' = IF Dev("AliasedReadCache") THEN [cache EXCEPT ![h] = With(@, k, r.x)] ELSE cache
+                    ELSE UNCHANGED cache /\ Note(a, "ValueError")
+
+(* the caller edits, in place, the object that lib[k] handed to it (rename, recharge, move atoms, relabel):  *)
+(* the library is not concerned -- unless it still holds that very object                                    *)
+Scribbled(x) == [x EXCEPT !.name = "s:scribbled"]
+Scribble(h, k) ==
+  /\ hs[h].made /\ k \in DOMAIN file.recs
+  /\ UNCHANGED <<file, hs, written>>
+  /\ cache' = IF k \in DOMAIN cache[h] THEN [cache EXCEPT ![h] = With(@, k, Scribbled(@[k]))] ELSE cache
+  /\ Note([act |-> "scribble", h |-> h, k |-> k], "ok")
 
 Next == \/ \E kind \in Kinds : MakeLegacy(kind)
         \/ \E k \in Keys, x \in Pool : LegacyPut(k, x)
         \/ \E h \in {"w", "r"}, kind \in Kinds : OpenLib(h, kind)
         \/ \E k \in Keys, x \in Pool : Put(k, x)
         \/ \E h \in {"w", "r"}, k \in Keys : Get(h, k)
+        \/ \E h \in {"w", "r"}, k \in Keys : Scribble(h, k)
 Spec == Init /\ [][Next]_vars
 
 (* ----- the clauses of C01 ---------------------------------------------------*)
@@ -223,4 +243,6 @@ CodecByMagic   == \A h \in {"w", "r"} : hs[h].made => hs[h].codec = FileVer
 (* records have the documented shape *)
 StoredInSchema == \A k \in DOMAIN file.recs : Len(file.recs[k]) = Arity(FileVer, file.kind)
 KeysAreWritten == DOMAIN file.recs = DOMAIN written
+(* a library object holds no decoded object that a caller could reach *)
+NothingShared  == \A h \in {"w", "r"} : DOMAIN cache[h] = {}
 =============================================================================
